@@ -222,9 +222,9 @@ fn check_state(ctx: &mut Ctx, kind: Kind, ops: &[Op], real: &Network<char>, mode
         let n = got.len();
         got.sort();
         let (class, obl): (&str, &[&str]) = match kind {
-            Kind::Ordered => ("iter-all-ordered-repeats", &["NET.iter_next.ensures.yield-ordered", "NET.iter_next_rest_ordered.ensures.rest-ordered", "NET.iter_all.ensures.agrees-with-len"]),
-            Kind::NonDup => ("iter-all-nondup-extra-copy", &["NET.iter_next_rest.ensures.rest-nondup", "NET.iter_next.ensures.yield-nondup", "NET.iter_all.ensures.agrees-with-len"]),
-            Kind::Dup => ("iter-all-dup-mismatch", &["NET.iter_next.ensures.yield-dup", "NET.iter_next_rest.ensures.rest-dup", "NET.iter_all.ensures.agrees-with-len"]),
+            Kind::Ordered => ("iter-all-ordered-repeats", &["NET.iter_next.ensures.yield-ordered", "NET.iter_next_rest_ordered.ensures.rest-ordered", "NET.iter_all.ensures.agrees-with-len", "NET.iter_all.ensures.multiset"]),
+            Kind::NonDup => ("iter-all-nondup-extra-copy", &["NET.iter_next_rest.ensures.rest-nondup", "NET.iter_next.ensures.yield-nondup", "NET.iter_all.ensures.agrees-with-len", "NET.iter_all.ensures.multiset"]),
+            Kind::Dup => ("iter-all-dup-mismatch", &["NET.iter_next.ensures.yield-dup", "NET.iter_next_rest.ensures.rest-dup", "NET.iter_all.ensures.agrees-with-len", "NET.iter_all.ensures.multiset"]),
         };
         ctx.check(
             &case,
@@ -245,7 +245,7 @@ fn check_state(ctx: &mut Ctx, kind: Kind, ops: &[Op], real: &Network<char>, mode
         ctx.check(
             &case,
             &format!("iter-deliverable-{}", kn),
-            &["NET.deliverable_next.ensures.yield", "NET.deliverable_next.ensures.rest", "NET.iter_deliverable.ensures.enumerates", "NET.iter_deliverable.ensures.one-per-key"],
+            &["NET.deliverable_next.ensures.yield", "NET.deliverable_next.ensures.rest", "NET.iter_deliverable.ensures.enumerates", "NET.iter_deliverable.ensures.one-per-key", "NET.iter_deliverable.ensures.deliverable"],
             got == want,
             format!("{:?}", got),
             format!("{:?}", want),
@@ -261,7 +261,37 @@ fn check_state(ctx: &mut Ctx, kind: Kind, ops: &[Op], real: &Network<char>, mode
             Kind::Ordered => Network::new_ordered(envs),
         };
         let got = view_of(&built);
-        ctx.check(&case, &format!("new-{}", kn), &["NET.send.ensures.view"], &got == model && &built == real, format!("{:?}", got), format!("{:?}", model));
+        let obl: &[&str] = match kind {
+            Kind::Dup => &["NET.new_unordered_duplicating.ensures.view", "NET.new_unordered_duplicating.ensures.wf", "NET.new_unordered_duplicating.loop1.invariant.fold"],
+            Kind::NonDup => &["NET.new_unordered_nonduplicating.ensures.view", "NET.new_unordered_nonduplicating.ensures.wf", "NET.new_unordered_nonduplicating.loop1.invariant.fold"],
+            Kind::Ordered => &["NET.new_ordered.ensures.view", "NET.new_ordered.ensures.wf", "NET.new_ordered.loop1.invariant.fold"],
+        };
+        // the view of the result is the left fold of send over the envelopes (= the model after the same sends)
+        ctx.check(&case, &format!("new-{}", kn), obl, &got == model && &built == real, format!("{:?}", got), format!("{:?}", model));
+        // the duplicating constructor with an explicit last message: same set, last_msg as given
+        if kind == Kind::Dup {
+            for last in [None, Some((0usize, 1usize, 'a')), Some((1usize, 0usize, 'b'))] {
+                let case = format!("{}|new_with_last={:?}", id, last);
+                if !ctx.want(&case) {
+                    continue;
+                }
+                let envs: Vec<Env> = ops.iter().map(|o| if let Op::Send(k) = o { env(*k) } else { unreachable!() }).collect();
+                let built = Network::new_unordered_duplicating_with_last_msg(envs, last.map(env));
+                let want = match model {
+                    Model::Dup(set, _) => Model::Dup(set.clone(), last),
+                    _ => unreachable!(),
+                };
+                let got = view_of(&built);
+                ctx.check(
+                    &case,
+                    "new-dup-with-last",
+                    &["NET.new_unordered_duplicating_with_last_msg.ensures.view", "NET.new_unordered_duplicating_with_last_msg.loop1.invariant.fold"],
+                    got == want,
+                    format!("{:?}", got),
+                    format!("{:?}", want),
+                );
+            }
+        }
     }
 }
 
@@ -332,6 +362,6 @@ pub fn run(ctx: &mut Ctx) {
         let e = env((0, 1, 'a'));
         let n = Network::new_unordered_nonduplicating([e, e]);
         let c = n.iter_all().take(10).count();
-        ctx.check(case, "iter-all-nondup-extra-copy", &["NET.iter_next_rest.ensures.rest-nondup", "NET.iter_all.ensures.agrees-with-len"], c == n.len(), format!("len()={} iter_all().count()={}", n.len(), c), "equal".to_string());
+        ctx.check(case, "iter-all-nondup-extra-copy", &["NET.iter_next_rest.ensures.rest-nondup", "NET.iter_all.ensures.agrees-with-len", "NET.iter_all.ensures.multiset"], c == n.len(), format!("len()={} iter_all().count()={}", n.len(), c), "equal".to_string());
     }
 }
